@@ -87,6 +87,17 @@ impl MulticastGroups {
     }
 }
 
+#[cfg(feature = "verif-hooks")]
+impl MulticastGroups {
+    /// Number of (group, member) pairs whose member socket lives on `host`.
+    pub(crate) fn verif_membership_count(&self, host: IpAddr) -> usize {
+        self.0
+            .values()
+            .map(|members| members.iter().filter(|m| m.ip() == host).count())
+            .sum()
+    }
+}
+
 struct Rx {
     recv: mpsc::Receiver<(Datagram, SocketAddr)>,
     /// A buffered received message.
